@@ -484,7 +484,7 @@ def r7_values(ctx):
                       "unitcell_lengths": lambda s_, v: setattr(s_, "_unitcell_lengths", v), "unitcell_angles": lambda s_, v: setattr(s_, "_unitcell_angles", v)}
         return o
 
-    def traj(name, F, atoms=A, top=None, traces=False):
+    def traj(name, F, atoms=A, top=None, traces=False, views=False):
         top = top or Obj(tag=name + ".top")
         if not hasattr(top, "join"):
             top.join = lambda other, keep_resSeq=True, _t=top: Obj(tag=("join", _t, other, keep_resSeq), _numAtoms=(_t._numAtoms or 0) + (getattr(other, "_numAtoms", 0) or 0))
@@ -496,6 +496,13 @@ def r7_values(ctx):
             o.n_frames, o.n_atoms, o._have_unitcell = F, atoms, True
             o._ctor = ctor
         o._rmsd_traces = Ten.sym(name + ".tr", (F,)) if traces else None
+        if views:
+            # the arrays of the trajectory are themselves views of larger buffers (built from a reshaped table, loaded with a stride ...):
+            # numpy collapses chains of views, a slice of them is a view of the outer buffer
+            ev_ = TenSym({})
+            for f_, shp in (("_xyz", (F + 1, atoms, 3)), ("_time", (F + 1,)), ("_unitcell_lengths", (F + 1, 3)), ("_unitcell_angles", (F + 1, 3)), ("_rmsd_traces", (F + 1,))):
+                if getattr(o, f_) is not None:
+                    setattr(o, f_, ev_.getitem(Ten.sym(name + ".buffer" + f_, shp), slice(1, None)))
         return o
 
     def models():
@@ -608,10 +615,11 @@ def r7_values(ctx):
         ctx.undecided("C03-R7", fn_s, TRAJ, "Trajectory.stack", "stack(b) with another number of frames is refused", "not evaluable: %s" % e_)
 
     # ---- slice
-    for key, kdesc in ((slice(0, 2), "0:2"), (slice(None, None, 2), "::2"), ([2, 0], "[2, 0]"), (slice(1, 2), "1:2")):
+    for key, kdesc, views in ((slice(0, 2), "0:2", False), (slice(None, None, 2), "::2", False), ([2, 0], "[2, 0]", False), (slice(1, 2), "1:2", False),
+                              (slice(0, 2), "0:2 of a trajectory whose arrays are views of larger buffers", True), ([2, 0], "[2, 0] of a trajectory whose arrays are views of larger buffers", True)):
         for copy in (True, False):
-            def b_slice(key=key, copy=copy):
-                return traj("a", 3, traces=True), {"key": key, "copy": copy}
+            def b_slice(key=key, copy=copy, views=views):
+                return traj("a", 3, traces=True, views=views), {"key": key, "copy": copy}
 
             def s_slice(ev, me, kw, got, key=key, copy=copy, kdesc_=kdesc):
                 pr = []
